@@ -27,6 +27,8 @@ RULES = {
     "LAXFUNCTOR-ARITY-TRUSTED": "TRUSTED (consequence of the user contract A_L): the tensor of the user functor's operation "
                                 "images has Σ_e Σ_{v∈sources(e)} |F(label v)| sources and likewise targets; used only to excuse the "
                                 "absent results of try_define_map_arrow / map_arrow_witness whose lax composition arity check fails",
+    "CC-REFL": "connected_components(a', b', n) where (a', b') are the pairs of (a, b) passing a filter whose negation forces "
+               "v == w (only reflexive pairs are dropped) ≡ connected_components(a, b, n)",
     "PERM-SUM": "π a permutation of 0..len(x) (identity, argsort, matrix transposition): sum(x∘π) = sum(x)",
     "ID-GATHER": "gather(x, arange(0,len x)) ≡ x",
 }
